@@ -54,6 +54,67 @@ fn connectable_families(worlds: &[World], oracles: Vec<Oracle>) -> Vec<(Family, 
   ]
 }
 
+/// feedback on the same thread: a callback of the subscriber (at its 1st/2nd item, at its
+/// terminal) pushes a further event into a hot source the pipeline is fed from. Real run only
+/// (reference-free oracles): the contract must hold whatever arrives *while a callback runs*.
+fn feedback_families(th: bool, last_pos: &[Op], oracles: Vec<Oracle>) -> Vec<(Family, usize)> {
+  // with a functional oracle only items fed from item callbacks: which of two events wins when a
+  // terminal is pushed *during* the delivery of an operator's last item is not fixed by any statement
+  // (take emits then cancels, all cancels then emits; both are fine) - the contract oracle takes it all
+  let needs_reference = oracles.iter().any(|o| matches!(o, Oracle::Functional | Oracle::Teardown | Oracle::Independence));
+  let trigs: Vec<Trig> = if needs_reference { vec![Trig::Item(1), Trig::Item(2)] } else { vec![Trig::Item(1), Trig::Item(2), Trig::Complete, Trig::Error] };
+  let fed: Vec<Ev> = if needs_reference { vec![Ev::n(9)] } else { vec![Ev::n(9), Ev::E(6), Ev::C] };
+  let mut w1 = vec![];
+  for sc in wf_scripts(&[1, 2], 2, &[Ending::Complete, Ending::Error, Ending::Silent]) {
+    for trig in trigs.iter().cloned() {
+      for ev in &fed {
+        for k in [SrcKind::Hot, SrcKind::Subject, SrcKind::BehaviorSubject, SrcKind::ReplaySubject] {
+          let mut acts = vec![Act::Feed { outer: 0, trig, src: 0, ev: ev.clone() }, Act::Sub(0)];
+          acts.extend(sc.iter().map(|e| Act::Emit(0, e.clone())));
+          // one more round after the script: what the feedback left behind must stay shut
+          acts.push(Act::Emit(0, Ev::n(3)));
+          w1.push(World { srcs: vec![k], acts });
+        }
+      }
+    }
+  }
+  let w1 = Arc::new(w1);
+  let mut fams = vec![];
+  let mut p1 = vec![Node::Src(0)];
+  p1.extend(depth1(last_pos));
+  fams.push((Family { name: "feedback: a callback pushes into the hot source it is fed from, depth 0-1".into(), pipelines: p1, worlds: w1.clone(), oracles: oracles.clone() }, 1));
+  let red = reduced_ops();
+  let w1s: Arc<Vec<World>> = if th { w1.clone() } else { Arc::new(w1.iter().step_by(3).cloned().collect()) };
+  fams.push((Family { name: "feedback, depth 2 (reduced catalogue)".into(), pipelines: depth2(&red, &red), worlds: w1s, oracles: oracles.clone() }, 2));
+  // two hot inputs of a combining operator; the callback feeds either of them
+  let mut w2 = vec![];
+  let per_src = wf_scripts(&[1], 1, &[Ending::Complete, Ending::Error, Ending::Silent]);
+  for a in &per_src {
+    for b in &per_src {
+      for il in interleavings(&[a.clone(), offset(b, 10)]) {
+        for trig in trigs.iter().cloned() {
+          for ev in &fed {
+            for src in [0usize, 1] {
+              // one more round after the script, in both orders: what the feedback left behind shows
+              for tail in [[Act::Emit(0, Ev::n(3)), Act::Emit(1, Ev::n(13))], [Act::Emit(1, Ev::n(13)), Act::Emit(0, Ev::n(3))]] {
+                let mut acts = vec![Act::Feed { outer: 0, trig, src, ev: ev.clone() }, Act::Sub(0)];
+                acts.extend(il.iter().cloned());
+                acts.extend(tail);
+                w2.push(World { srcs: vec![SrcKind::Hot, SrcKind::Hot], acts });
+              }
+            }
+          }
+        }
+      }
+    }
+  }
+  let two = |op: &Op| Node::opx(op.clone(), Node::Src(0), vec![Node::Src(1)]);
+  let mut p2: Vec<Node> = (if needs_reference { multi_ops() } else { multi_ops_all() }).iter().map(two).collect();
+  p2.push(Node::op(Op::FlatMap(Inner::Hot { base: 1, n: 1 }), Node::Src(0)));
+  fams.push((Family { name: "feedback into either input of a combining operator".into(), pipelines: p2, worlds: Arc::new(w2), oracles }, 1));
+  fams
+}
+
 fn run_families(prop: &str, r: &mut Report, fams: Vec<(Family, usize)>) {
   let stop = AtomicBool::new(false);
   let mut per = vec![];
@@ -134,6 +195,7 @@ pub fn check(prop: &str, tier: &str) -> Option<Report> {
       fams.push((Family { name: "creation functions, alone and below every operator".into(), pipelines: with_src, worlds: Arc::new(lib_worlds(1)), oracles: vec![Oracle::Contract] }, 1));
       fams.extend(multi_families(th, true, vec![Oracle::Contract]));
       fams.extend(connectable_families(&w_small, vec![Oracle::Contract]));
+      fams.extend(feedback_families(th, &last_pos, vec![Oracle::Contract]));
       if th {
         fams.push((Family { name: "depth 3 (reduced catalogue)".into(), pipelines: depth3(&reduced_ops()), worlds: w_small, oracles: vec![Oracle::Contract] }, 3));
       }
@@ -141,6 +203,8 @@ pub fn check(prop: &str, tier: &str) -> Option<Report> {
     }
     "C03" => {
       let mut fams = multi_families(th, false, vec![Oracle::Functional]);
+      // the same sequential orders produced by feedback: the subscriber's callback pushes the next event
+      fams.extend(feedback_families(th, &[], vec![Oracle::Functional]).into_iter().skip(2));
       // utils::ready_set_go: subscribe first, then run the action that emits into the source
       let rsg: Vec<Node> = wf_scripts(&[1, 2], 3, &[Ending::Complete, Ending::Error, Ending::Silent])
         .into_iter()
